@@ -1083,8 +1083,14 @@ class Gen(object):
             elif q < 0.45:
                 ko, _ = self.pick(self.is_real)
                 op['out_like'] = ko
-            if op['f'] == 'sum' and 'out_like' not in op and r.random() < 0.3:
+            if op['f'] == 'sum' and 'out_like' not in op and r.random() < 0.4:
                 op['legacy'] = r.choice(['sizes', 'sizes', 'dtype'])      # fxp_sum, the older spelling
+                if 'out' not in op and r.random() < 0.5:
+                    # ... delivering into a register that can hold the sum (wider, same fraction)
+                    ko, _ = self.pick(lambda q_: self.is_real(q_) and q_.n_frac >= o.n_frac and
+                                      q_.n_word - q_.n_frac >= o.n_word - o.n_frac + 2 and np.ndim(q_.val) == 0)
+                    if ko is not None:
+                        op['out'] = ko
         return op
 
     def g_npfunc(self):
@@ -2003,7 +2009,10 @@ class Gen(object):
                 return self.g_call()
             f = r.choice(['add', 'sub', 'mul', 'add', 'truediv'])
             if arr and r.random() < 0.3:
-                return {'op': 'reduce', 'f': r.choice(['sum', 'max', 'min', 'cumsum']), 'a': ka, 'route': 'fn', 'out': kr}
+                op = {'op': 'reduce', 'f': r.choice(['sum', 'sum', 'max', 'min', 'cumsum']), 'a': ka, 'route': 'fn', 'out': kr}
+                if op['f'] == 'sum' and r.random() < 0.5:
+                    op['legacy'] = 'sizes'
+                return op
             b = {'slot': ka} if r.random() < 0.4 else {'val': ['i', r.randint(1, 3)]}
             return {'op': 'arith', 'f': f, 'a': ka, 'b': b, 'route': r.choice(['fn', 'fn', 'np']), 'out': kr}
         self.queue.extend([reg, arm, use])
